@@ -469,6 +469,7 @@ def shard(sh):
     n = 0
     try:
         hangs = [0]
+        hs0 = [0]
 
         def one(case):
             nonlocal n, fd0
@@ -482,12 +483,17 @@ def shard(sh):
                     case["kind"], case["mode"], hexs(bytes.fromhex(case["stream"])[:200])), case)
             if n == 100:
                 fd0 = e2.nfds()
+                hs0[0] = len(hs)
             if n % 50 == 0 and fd0 is not None and n > 100:
                 run.count("fd_checks")
-                if e2.nfds() > fd0 + 6:
-                    run.violation("descriptor-leak", "open descriptors grew from %d to %d" % (fd0, e2.nfds()),
-                                  {"note": "aggregate", "shard": sh})
+                # every worker object the harness creates later (another worker kind / configuration) owns a few descriptors
+                # of its own: heartbeat file, poller, statsd socket
+                allowance = 6 + 4 * max(0, len(hs) - hs0[0])
+                if e2.nfds() > fd0 + allowance:
+                    run.violation("descriptor-leak", "open descriptors grew from %d to %d (%d worker objects then, %d now)" % (
+                        fd0, e2.nfds(), hs0[0], len(hs)), {"note": "aggregate", "shard": sh})
                     fd0 = e2.nfds()
+                    hs0[0] = len(hs)
             return v
 
         if sh["kind"] == "prefix":
